@@ -81,9 +81,12 @@ def run(chk):
         lines += ["Y %s ;; %s" % (other, trans.case_line("T", 4, [97, 98], 10))]
         # every other sequence with the image moved to a fresh block on every arena allocation (hook): pointers into the
         # image kept across an allocation are stale at once, not only when a growth happens to fall on that allocation
-        moved = si % 2 == 1
-        chk.tally("sequences_with_image_moved_on_every_allocation" if moved else "sequences_with_real_growth_only")
-        outs = common.run_stream(exe, ["e 1", "m %d" % (1 if moved else 0)], lines, env=env, timeout=900)
+        # ... and every third one with tables created and grown WITHOUT slack (hook), so that every allocation goes through
+        # the library's own growth path (realloc, cache update) instead
+        marena = (0, 1, -1)[si % 3]
+        chk.tally({0: "sequences_with_real_growth_only", 1: "sequences_with_image_moved_on_every_allocation",
+                   -1: "sequences_growing_on_every_allocation"}[marena])
+        outs = common.run_stream(exe, ["e 1", "m %d" % marena], lines, env=env, timeout=900)
         key = (si,)
         if any(isinstance(o, tuple) for o in outs):
             chk.count(key)
